@@ -411,6 +411,17 @@ func (c *c07Ctx) scanCase(class string, data []byte, mustFail bool) scanResult {
 			}
 		}
 	}
+	if mustFail && res.verdict == "OK" && len(bytes.TrimSpace(data)) > 0 {
+		// the scan ended without an error although the stream stops inside a record (the scanner
+		// reads an error whose cause is io.EOF as the regular end of input)
+		small := c.shrink(data, func(d []byte) bool {
+			if bytes.Contains(d, []byte("\n//")) || bytes.HasPrefix(d, []byte("//")) || len(bytes.TrimSpace(d)) == 0 || !bytes.HasPrefix(d, []byte("LOCUS")) {
+				return false
+			}
+			return c07Scan(d).verdict == "OK"
+		})
+		r.fail(Failure{Oracle: "a GenBank file cut before its closing `//` is reported as an error, not as the regular end of input (" + class + ")", Op: "scan.auto " + encBytes(small), Got: res.String(), Want: "ERR"})
+	}
 	if mustFail && len(res.lens) > 0 {
 		small := c.shrink(data, func(d []byte) bool {
 			if bytes.Contains(d, []byte("\n//")) || bytes.HasPrefix(d, []byte("//")) {
